@@ -910,6 +910,9 @@ def run(w: Workload):
     w.assumptions += [
         "a process kill is modelled as a BaseException raised at the file operation (before/after) or after half of the bytes were written",
         "make_url_request is replaced by an immediate URLError (no network exists)",
+        "private-HOME part: the kill is a real process end (os._exit in a forked process at the file operation; the lock file stays, "
+        "the flock is dropped by the OS); the refresh runs against a stand-in for the schema repository that serves the "
+        "bundled files with their git blob hashes; the reference schemas are built with load_schema from the bundled files",
         "the bundled schema = load_schema() of the installed schema_data file, compared with HedSchema.__eq__",
         "flock-based exclusion between two descriptors also holds inside one process (checked once for portalocker 4.x on this OS)",
     ]
